@@ -20,6 +20,18 @@ def generate(ctx, exe, profile, ntables, npoints, maxcoef, tag=""):
     base = os.path.join(ctx.scratch, profile + tag)
     cases, impl, stats = base + ".in", base + ".impl", base + ".stats"
     rc, out, err = ctx.run([exe, profile, str(ntables), str(npoints), cases, impl, stats, str(maxcoef)], timeout=(240 if ctx.tier == "quick" else 2400))
+    if rc == 0:
+        try: st = json.load(open(stats))
+        except Exception: st = {}
+        co = st.get("concurrent_outcome")
+        if co is None:
+            ctx.tie_ok = False; ctx.broken.append({"kind": "the concurrent phase of the evaluation harness did not run", "profile": profile + tag})
+        elif co != 0:
+            ctx.report("concurrent-evaluation-differs" if co > 0 else "concurrent-evaluation-crash",
+                       {"profile": profile + tag, "threads": st.get("concurrent_threads"), "tables": st.get("concurrent_tables"), "points": st.get("concurrent_points_evaluated"), "outcome": co,
+                        "replay_cmd": "VERIF_SEED=%d python3 bin/check.py %s --tier %s" % (ctx.seed, ctx.prop, ctx.tier)},
+                       ("%d sets of lookups / evaluations made on const tables while other threads were evaluating the same tables differ from the same calls made alone" % co) if co > 0
+                       else "the process evaluating const tables from %s threads at the same time died (signal %d); each of these calls succeeds alone" % (st.get("concurrent_threads"), -co))
     return rc, out, err, cases, impl, stats
 
 def last_case(cases):
